@@ -329,7 +329,226 @@ theorem edgeCoords_eq (dd : Nat) (h1 : 1 ≤ dd) :
     have := List.mem_range.1 hk
     simp only [ringCoord, Function.comp]
     repeat' split
-    all_goals trace_state
-    all_goals sorry
+    all_goals first | rfl | omega | (refine Prod.ext ?_ ?_ <;> simp only [] <;> omega)
+
+theorem ringCoord_cases (dd t : Nat) :
+    (t < 2 ^ dd - 1 ∧ ringCoord dd t = (t, 0)) ∨
+    (2 ^ dd - 1 ≤ t ∧ t < 2 * (2 ^ dd - 1) ∧ ringCoord dd t = (2 ^ dd - 1, t - (2 ^ dd - 1))) ∨
+    (2 * (2 ^ dd - 1) ≤ t ∧ t < 3 * (2 ^ dd - 1) ∧ ringCoord dd t = (3 * (2 ^ dd - 1) - t, 2 ^ dd - 1)) ∨
+    (3 * (2 ^ dd - 1) ≤ t ∧ ringCoord dd t = (0, 4 * (2 ^ dd - 1) - t)) := by
+  simp only [ringCoord]
+  by_cases c1 : t < 2 ^ dd - 1
+  · left; exact ⟨c1, by rw [if_pos c1]⟩
+  by_cases c2 : t < 2 * (2 ^ dd - 1)
+  · right; left; exact ⟨by omega, c2, by rw [if_neg c1, if_pos c2]⟩
+  by_cases c3 : t < 3 * (2 ^ dd - 1)
+  · right; right; left; exact ⟨by omega, c3, by rw [if_neg c1, if_neg c2, if_pos c3]⟩
+  · right; right; right; exact ⟨by omega, by rw [if_neg c1, if_neg c2, if_neg c3]⟩
+
+/-- the explicit ring of border descendants, in the order of `internal_edge` -/
+def edgeList (hash dd : Nat) : List Nat := (edgeCoords dd).map (cellVal hash dd)
+
+theorem edgeList_eq (hash dd : Nat) (h1 : 1 ≤ dd) :
+    edgeList hash dd = (List.range (4 * (2 ^ dd - 1))).map (fun t => cellVal hash dd (ringCoord dd t)) := by
+  rw [edgeList, edgeCoords_eq dd h1, List.map_map]; rfl
+
+theorem internalEdge_length (hash dd : Nat) (h1 : 1 ≤ dd) : (edgeList hash dd).length = 4 * 2 ^ dd - 4 := by
+  rw [edgeList_eq hash dd h1]; simp; omega
+
+/-- is `(x, y)` on the border of the `N × N` grid -/
+def onBorder (dd x y : Nat) : Prop := x < 2 ^ dd ∧ y < 2 ^ dd ∧ (x = 0 ∨ x = 2 ^ dd - 1 ∨ y = 0 ∨ y = 2 ^ dd - 1)
+
+theorem ringCoord_border (dd t : Nat) (h1 : 1 ≤ dd) (ht : t < 4 * (2 ^ dd - 1)) :
+    onBorder dd (ringCoord dd t).1 (ringCoord dd t).2 := by
+  have hN := two_le_pow h1
+  simp only [onBorder]
+  rcases ringCoord_cases dd t with ⟨_, e⟩ | ⟨_, _, e⟩ | ⟨_, _, e⟩ | ⟨_, e⟩ <;> rw [e] <;> dsimp only <;> omega
+
+theorem ringCoord_inj (dd t t' : Nat) (ht : t < 4 * (2 ^ dd - 1)) (ht' : t' < 4 * (2 ^ dd - 1))
+    (e : ringCoord dd t = ringCoord dd t') : t = t' := by
+  rcases ringCoord_cases dd t with ⟨_, e1⟩ | ⟨_, _, e1⟩ | ⟨_, _, e1⟩ | ⟨_, e1⟩ <;>
+  rcases ringCoord_cases dd t' with ⟨_, e2⟩ | ⟨_, _, e2⟩ | ⟨_, _, e2⟩ | ⟨_, e2⟩ <;>
+  rw [e1, e2, Prod.mk.injEq] at e <;> omega
+
+theorem ringCoord_surj (dd x y : Nat) (h1 : 1 ≤ dd) (hb : onBorder dd x y) :
+    ∃ t, t < 4 * (2 ^ dd - 1) ∧ ringCoord dd t = (x, y) := by
+  have hN := two_le_pow h1
+  obtain ⟨hx, hy, hb⟩ := hb
+  by_cases c1 : y = 0 ∧ x < 2 ^ dd - 1
+  · refine ⟨x, by omega, ?_⟩
+    simp only [ringCoord]; rw [if_pos c1.2, c1.1]
+  by_cases c2 : x = 2 ^ dd - 1 ∧ y < 2 ^ dd - 1
+  · refine ⟨2 ^ dd - 1 + y, by omega, ?_⟩
+    simp only [ringCoord]
+    rw [if_neg (by omega), if_pos (by omega), c2.1]; congr 1; omega
+  by_cases c3 : y = 2 ^ dd - 1 ∧ 0 < x
+  · refine ⟨3 * (2 ^ dd - 1) - x, by omega, ?_⟩
+    simp only [ringCoord]
+    rw [if_neg (by omega), if_neg (by omega), if_pos (by omega), c3.1]; congr 1; omega
+  · refine ⟨4 * (2 ^ dd - 1) - y, by omega, ?_⟩
+    simp only [ringCoord]
+    rw [if_neg (by omega), if_neg (by omega), if_neg (by omega)]
+    refine Prod.ext ?_ ?_ <;> simp only [] <;> omega
+
+theorem cellVal_inj (hash dd : Nat) (c c' : Nat × Nat) (h1 : c.1 < 2 ^ 32) (h2 : c.2 < 2 ^ 32) (h1' : c'.1 < 2 ^ 32)
+    (h2' : c'.2 < 2 ^ 32) (e : cellVal hash dd c = cellVal hash dd c') : c = c' := by
+  have e' : interleave c.1 c.2 = interleave c'.1 c'.2 := by simp only [cellVal] at e; omega
+  have ei := congrArg (squeezeN 32) e'
+  have ej := congrArg (fun z => squeezeN 32 (z / 2)) e'
+  simp only [squeezeN_interleave_i, squeezeN_interleave_j] at ei ej
+  rw [Nat.mod_eq_of_lt h1, Nat.mod_eq_of_lt h1'] at ei
+  rw [Nat.mod_eq_of_lt h2, Nat.mod_eq_of_lt h2'] at ej
+  exact Prod.ext ei ej
+
+theorem pow_le_32 {dd : Nat} (hd : dd ≤ 32) {x : Nat} (hx : x < 2 ^ dd) : x < 2 ^ 32 :=
+  Nat.lt_of_lt_of_le hx (Nat.pow_le_pow_right (by decide) hd)
+
+theorem internalEdge_nodup (hash dd : Nat) (h1 : 1 ≤ dd) (hd : dd ≤ 32) : (edgeList hash dd).Nodup := by
+  rw [edgeList_eq hash dd h1, List.Nodup, List.pairwise_map]
+  refine List.Pairwise.imp_of_mem ?_ (List.nodup_range (n := 4 * (2 ^ dd - 1)))
+  intro a b ha hb hab e
+  have ha := List.mem_range.1 ha
+  have hb := List.mem_range.1 hb
+  have ba := ringCoord_border dd a h1 ha
+  have bb := ringCoord_border dd b h1 hb
+  exact hab (ringCoord_inj dd a b ha hb (cellVal_inj hash dd _ _ (pow_le_32 hd ba.1) (pow_le_32 hd ba.2.1)
+    (pow_le_32 hd bb.1) (pow_le_32 hd bb.2.1) e))
+
+/-- the members are exactly the border descendants -/
+theorem internalEdge_mem (hash dd h' : Nat) (h1 : 1 ≤ dd) :
+    h' ∈ edgeList hash dd ↔ ∃ x y, x < 2 ^ dd ∧ y < 2 ^ dd ∧ (x = 0 ∨ x = 2 ^ dd - 1 ∨ y = 0 ∨ y = 2 ^ dd - 1) ∧
+      h' = hash * 4 ^ dd + interleave x y := by
+  rw [edgeList_eq hash dd h1, List.mem_map]
+  constructor
+  · rintro ⟨t, ht, rfl⟩
+    have b := ringCoord_border dd t h1 (List.mem_range.1 ht)
+    exact ⟨_, _, b.1, b.2.1, b.2.2, rfl⟩
+  · rintro ⟨x, y, hx, hy, hb, rfl⟩
+    obtain ⟨t, ht, e⟩ := ringCoord_surj dd x y h1 ⟨hx, hy, hb⟩
+    exact ⟨t, List.mem_range.2 ht, by rw [e]; rfl⟩
+
+theorem edgeList_getElem? (hash dd t : Nat) (h1 : 1 ≤ dd) (ht : t < 4 * (2 ^ dd - 1)) :
+    (edgeList hash dd)[t]? = some (cellVal hash dd (ringCoord dd t)) := by
+  rw [edgeList_eq hash dd h1]; simp [ht]
+
+/-- the walk: starts at the south corner, element `N−1` is the east corner, element `2(N−1)` the north corner, element
+    `3(N−1)` the west corner, and cyclically consecutive elements are adjacent cells (one step in `x` or in `y`) -/
+theorem internalEdge_walk (hash dd : Nat) (h1 : 1 ≤ dd) :
+    (edgeList hash dd)[0]? = some (hash * 4 ^ dd) ∧
+    (edgeList hash dd)[2 ^ dd - 1]? = some (hash * 4 ^ dd + interleave (2 ^ dd - 1) 0) ∧
+    (edgeList hash dd)[2 * (2 ^ dd - 1)]? = some (hash * 4 ^ dd + interleave (2 ^ dd - 1) (2 ^ dd - 1)) ∧
+    (edgeList hash dd)[3 * (2 ^ dd - 1)]? = some (hash * 4 ^ dd + interleave 0 (2 ^ dd - 1)) ∧
+    ∀ t, t < (edgeList hash dd).length → ∃ x y x' y',
+      (edgeList hash dd)[t]? = some (hash * 4 ^ dd + interleave x y) ∧
+      (edgeList hash dd)[(t + 1) % (edgeList hash dd).length]? = some (hash * 4 ^ dd + interleave x' y') ∧
+      onBorder dd x y ∧ onBorder dd x' y' ∧
+      ((x' = x ∧ (y' = y + 1 ∨ y' + 1 = y)) ∨ (y' = y ∧ (x' = x + 1 ∨ x' + 1 = x))) := by
+  have hN := two_le_pow h1
+  refine ⟨?_, ?_, ?_, ?_, ?_⟩
+  · rw [edgeList_getElem? hash dd 0 h1 (by omega)]
+    simp only [ringCoord, cellVal]
+    rw [if_pos (by omega)]; simp [interleave]
+  · rw [edgeList_getElem? hash dd _ h1 (by omega)]
+    simp only [ringCoord, cellVal]
+    rw [if_neg (by omega), if_pos (by omega)]; simp
+  · rw [edgeList_getElem? hash dd _ h1 (by omega)]
+    simp only [ringCoord, cellVal]
+    rw [if_neg (by omega), if_neg (by omega), if_pos (by omega)]
+    congr 3; dsimp only; omega
+  · rw [edgeList_getElem? hash dd _ h1 (by omega)]
+    simp only [ringCoord, cellVal]
+    rw [if_neg (by omega), if_neg (by omega), if_neg (by omega)]
+    congr 3; dsimp only; omega
+  · intro t ht
+    rw [internalEdge_length hash dd h1] at ht ⊢
+    have ht4 : t < 4 * (2 ^ dd - 1) := by omega
+    have hm : (t + 1) % (4 * 2 ^ dd - 4) < 4 * (2 ^ dd - 1) := by
+      have := Nat.mod_lt (t + 1) (show 0 < 4 * 2 ^ dd - 4 by omega); omega
+    refine ⟨(ringCoord dd t).1, (ringCoord dd t).2, (ringCoord dd ((t + 1) % (4 * 2 ^ dd - 4))).1,
+      (ringCoord dd ((t + 1) % (4 * 2 ^ dd - 4))).2, edgeList_getElem? hash dd t h1 ht4,
+      edgeList_getElem? hash dd _ h1 hm, ringCoord_border dd t h1 ht4, ringCoord_border dd _ h1 hm, ?_⟩
+    by_cases hl : t + 1 = 4 * 2 ^ dd - 4
+    · rw [hl, Nat.mod_self]
+      rcases ringCoord_cases dd t with ⟨_, e1⟩ | ⟨_, _, e1⟩ | ⟨_, _, e1⟩ | ⟨_, e1⟩ <;>
+      rcases ringCoord_cases dd 0 with ⟨_, e2⟩ | ⟨_, _, e2⟩ | ⟨_, _, e2⟩ | ⟨_, e2⟩ <;>
+      rw [e1, e2] <;> dsimp only <;> omega
+    · rw [Nat.mod_eq_of_lt (by omega)]
+      rcases ringCoord_cases dd t with ⟨_, e1⟩ | ⟨_, _, e1⟩ | ⟨_, _, e1⟩ | ⟨_, e1⟩ <;>
+      rcases ringCoord_cases dd (t + 1) with ⟨_, e2⟩ | ⟨_, _, e2⟩ | ⟨_, _, e2⟩ | ⟨_, e2⟩ <;>
+      rw [e1, e2] <;> dsimp only <;> omega
+
+/-! ## 4. corners and sides -/
+
+/-- the four corners: south `(0,0)`, east `(N−1,0)`, west `(0,N−1)`, north `(N−1,N−1)`; no other direction is accepted.
+    Needs `1 ≤ dd ≤ 32` only (no curve is consulted). -/
+theorem internalCorner_spec (cfg : Cfg) (hash dd : Nat) (h1 : 1 ≤ dd) (hd : dd ≤ 32) (hh : hash < 2 ^ (64 - 2 * dd)) :
+    internalCorner cfg hash dd MW.S = some (hash * 4 ^ dd + interleave 0 0) ∧
+    internalCorner cfg hash dd MW.E = some (hash * 4 ^ dd + interleave (2 ^ dd - 1) 0) ∧
+    internalCorner cfg hash dd MW.W = some (hash * 4 ^ dd + interleave 0 (2 ^ dd - 1)) ∧
+    internalCorner cfg hash dd MW.N = some (hash * 4 ^ dd + interleave (2 ^ dd - 1) (2 ^ dd - 1)) ∧
+    (∀ dir, dir ≠ MW.S → dir ≠ MW.E → dir ≠ MW.W → dir ≠ MW.N → internalCorner cfg hash dd dir = none) := by
+  have hN := two_le_pow h1
+  have hm : 2 ^ dd - 1 < 2 ^ dd := by omega
+  have hmax : 4 ^ dd - 1 < 4 ^ dd := by have := Nat.pow_pos (n := dd) (show 0 < 4 by decide); omega
+  refine ⟨?_, ?_, ?_, ?_, ?_⟩
+  · simp [internalCorner, hash_shl hash dd hh hd, interleave]
+  · simp only [internalCorner, hash_shl hash dd hh hd, xMask_spec cfg dd h1 hd, Option.map_some]
+    rw [or_eq_add _ _ _ (interleave_lt hd hm (by omega))]
+  · simp only [internalCorner, hash_shl hash dd hh hd, yMask_spec cfg dd h1 hd, Option.map_some]
+    rw [or_eq_add _ _ _ (interleave_lt hd (by omega) hm)]
+  · simp only [internalCorner, hash_shl hash dd hh hd, xyMask_spec cfg dd h1 hd, Option.map_some]
+    rw [or_eq_add _ _ _ hmax, interleave_max dd hd]
+  · intro dir a b c d
+    cases dir <;> simp_all [internalCorner]
+
+/-- the north corner is the last descendant -/
+theorem north_corner_val (hash dd : Nat) (hd : dd ≤ 32) :
+    hash * 4 ^ dd + interleave (2 ^ dd - 1) (2 ^ dd - 1) = (hash + 1) * 4 ^ dd - 1 := by
+  rw [interleave_max dd hd]
+  have := Nat.pow_pos (n := dd) (show 0 < 4 by decide)
+  rw [Nat.add_mul]; omega
+
+/-- the four sides, each with its `N` cells including both corners: SE `(x,0)`, SW `(0,y)`, NE `(N−1,y)`, NW `(x,N−1)`,
+    each in increasing order of the running coordinate; no other direction is accepted -/
+theorem internalEdgePart_spec (cfg : Cfg) (hb : cfg.bmi = false) (hash dd : Nat) (h1 : 1 ≤ dd) (hd : dd ≤ 29)
+    (hh : hash < 2 ^ (64 - 2 * dd)) :
+    internalEdgePart cfg hash dd MW.SE = some ((List.range (2 ^ dd)).map fun x => hash * 4 ^ dd + interleave x 0) ∧
+    internalEdgePart cfg hash dd MW.SW = some ((List.range (2 ^ dd)).map fun y => hash * 4 ^ dd + interleave 0 y) ∧
+    internalEdgePart cfg hash dd MW.NE =
+      some ((List.range (2 ^ dd)).map fun y => hash * 4 ^ dd + interleave (2 ^ dd - 1) y) ∧
+    internalEdgePart cfg hash dd MW.NW =
+      some ((List.range (2 ^ dd)).map fun x => hash * 4 ^ dd + interleave x (2 ^ dd - 1)) ∧
+    (∀ dir, dir ≠ MW.SE → dir ≠ MW.SW → dir ≠ MW.NE → dir ≠ MW.NW → internalEdgePart cfg hash dd dir = none) := by
+  obtain ⟨c, hc, hdc⟩ := zoc_lut cfg hb dd hd
+  have hd32 : dd ≤ 32 := by omega
+  have hN := two_le_pow h1
+  have hm : 2 ^ dd - 1 < 2 ^ dd := by omega
+  refine ⟨?_, ?_, ?_, ?_, ?_⟩
+  · simp only [internalEdgePart, hc, Option.bind_eq_bind, Option.bind_some, hash_shl hash dd hh hd32, Nat.one_shiftLeft]
+    apply mapM_some_of_forall
+    intro k hk
+    have hk := List.mem_range.1 hk
+    rw [i02hDD_spec cfg hb dd k hd hk, Option.map_some, or_cell hash dd k 0 hd32 hk (by omega)]; rfl
+  · simp only [internalEdgePart, hc, Option.bind_eq_bind, Option.bind_some, hash_shl hash dd hh hd32, Nat.one_shiftLeft]
+    apply mapM_some_of_forall
+    intro k hk
+    have hk := List.mem_range.1 hk
+    rw [oj2hDD_spec cfg hb dd k hd hk, Option.map_some, or_cell hash dd 0 k hd32 (by omega) hk]; rfl
+  · simp only [internalEdgePart, hc, Option.bind_eq_bind, Option.bind_some, hash_shl hash dd hh hd32, Nat.one_shiftLeft,
+      i02hDD_spec cfg hb dd _ hd hm]
+    apply mapM_some_of_forall
+    intro k hk
+    have hk := List.mem_range.1 hk
+    rw [oj2hDD_spec cfg hb dd k hd hk, Option.map_some,
+      or_or_cell hash dd 0 k (2 ^ dd - 1) 0 (2 ^ dd - 1) k hd32 hm hk (by simp) (by simp)]; rfl
+  · simp only [internalEdgePart, hc, Option.bind_eq_bind, Option.bind_some, hash_shl hash dd hh hd32, Nat.one_shiftLeft,
+      oj2hDD_spec cfg hb dd _ hd hm]
+    apply mapM_some_of_forall
+    intro k hk
+    have hk := List.mem_range.1 hk
+    rw [i02hDD_spec cfg hb dd k hd hk, Option.map_some,
+      or_or_cell hash dd k 0 0 (2 ^ dd - 1) k (2 ^ dd - 1) hd32 hk hm (by simp) (by simp)]; rfl
+  · intro dir a b c d
+    cases dir <;> simp_all [internalEdgePart]
 
 end Hpx.EdgeInternal
